@@ -1,7 +1,10 @@
 ------------------------------ MODULE Trace_Slice ------------------------------
 (* Trace validation for property C13.  One line of the log = one public call                     *)
 (*   op "slice"   : df_slice(x, lb, ub, openclose) on a pd.Series (first column of o.s) and on a  *)
-(*                  pd.DataFrame (all columns of o.s); o.mode / o.B say how bounds are compared;  *)
+(*                  pd.DataFrame (all columns of o.s); o.mode / o.B say how bounds are compared   *)
+(*                  ("date": instants; "tod": time of day of a naive index; "ltod": index in a     *)
+(*                  time zone, o.s.tod = the wall-clock time of day of every row as the index      *)
+(*                  itself shows it); the index is sorted and may repeat timestamps;               *)
 (*   op "session" : consecutive calls df_slice(xs, ub = bounds, n = call.n) on the SAME two list   *)
 (*                  objects xs (series o.ss) and bounds (o.ubs); per call the result and the two   *)
 (*                  lists read again afterwards (ubs_after; ss_after = which of the original       *)
@@ -22,18 +25,30 @@ SliceVerdict(o) ==
                    ELSE IF r.out.rows # w.rows THEN "slice_rows"
                    ELSE IF r.out.cols # w.cols THEN "slice_values" ELSE ""
         bad == SelectSeq(Idx(Len(o.runs)), LAMBDA i : RunV(o.runs[i]) # "")
-    IN  IF ~WellFormed(o.s) \/ Len(o.runs) = 0 THEN "malformed_observation"
+        \* a zoned index: one wall-clock reading per row, the same for rows at the same instant
+        todOK == o.mode # "ltod" \/ (/\ Len(o.s.tod) = NRows(o.s)
+                                     /\ \A i \in 1..NRows(o.s) : o.s.tod[i] \in 1..(o.B - 1)
+                                     /\ \A i \in 1..(NRows(o.s) - 1) : o.s.rows[i] = o.s.rows[i + 1] => o.s.tod[i] = o.s.tod[i + 1])
+    IN  IF ~(o.mode \in {"date", "tod", "ltod"}) \/ ~SortedFrame(o.s) \/ ~todOK \/ Len(o.runs) = 0 THEN "malformed_observation"
         ELSE IF bad # <<>> THEN RunV(o.runs[bad[1]]) ELSE ""
 
 \* Every call of a session answers for the lists as the caller wrote them and leaves them as they are:
 \* a call that re-orders or rewrites its arguments changes what the caller's next call means.
+\* Series with repeated timestamps are stitched one column wide only, and judged by StitchDupOK (the statement
+\* does not say how many of the rows of a timestamp are shown, only whose they are).
 SessionVerdict(o) ==
     LET nS == Len(o.ss)
+        dup == \E i \in 1..nS : HasDupRows(o.ss[i])
         ok == /\ nS = Len(o.ubs) /\ nS >= 1 /\ Len(o.calls) >= 1
               /\ (Increasing(o.ubs) \/ Decreasing(o.ubs))
-              /\ \A i \in 1..nS : WellFormed(o.ss[i]) /\ NCols(o.ss[i]) = 1
-              /\ \A k \in 1..Len(o.calls) : o.calls[k].n \in 1..nS
+              /\ \A i \in 1..nS : SortedFrame(o.ss[i]) /\ NCols(o.ss[i]) = 1
+              /\ \A k \in 1..Len(o.calls) : o.calls[k].n \in 1..nS /\ (dup => o.calls[k].n = 1)
+        ssI  == IF Increasing(o.ubs) THEN o.ss ELSE Rev(o.ss)
+        ubsI == IF Increasing(o.ubs) THEN o.ubs ELSE Rev(o.ubs)
         CallV(cl) == IF ~IsFrame(cl.out) THEN "stitch_raised"
+                     ELSE IF dup THEN
+                          IF ~StitchDupOK(ssI, ubsI, FrameOf(cl.out)) THEN "stitch_rows"
+                          ELSE IF cl.ubs_after # o.ubs \/ cl.ss_after # Idx(nS) THEN "argument_changed" ELSE ""
                      ELSE LET want == Stitch(o.ss, o.ubs, cl.n) IN
                           IF cl.out.rows # want.rows THEN "stitch_rows"
                           ELSE IF cl.out.cols # want.cols THEN "stitch_values"
